@@ -324,7 +324,8 @@ class World:
         self.obs['reply'] = [{'alg': alg, 't': t, 'run': u['run'], 'msgid': u['msgid'], 'stale': u['stale'], 'out': out}]
         wid = self.new_worker(dawgie.context.git_rev)
         tim = dict(u['timing']) if u.get('timing') else {}
-        tim['started'] = self.clock
+        # the worker stamps the start of the run with ITS clock at the time it runs: later than any (re)load so far
+        tim['started'] = datetime.datetime.now(datetime.UTC)
         self.feed(
             wid,
             message.make(typ=message.Type.response, inc=(None if t == ALL else t), jid=alg, rid=u['run'], suc=suc, tim=tim, val=vals),
